@@ -62,6 +62,14 @@ def gen_cases(tier, seed):
         orders = [list(ALL[int(rng.integers(len(ALL)))]) for _ in range(3)] + [[0, 0, 0]]
         cases.append({"shells": shells, "orders": orders, "origin": [float(v) for v in np.array(shells[0]["c"]) + rng.normal(size=3)], "transform": None, "shift": False,
                       "classes": classes + ["origin:off", "T:none", "ntriples:4"] + ["o:%d%d%d" % tuple(o) for o in orders], "cost": 60})
+    # tight shells about one width apart, within and (C07 states no exponent range) 30x above the published range
+    for k in range(10 if tier == "quick" else 80):
+        rng = bases.rng_for("C07", seed, tier, "tight-near", k)
+        la, lb = [(0, 0), (1, 1), (2, 2), (3, 3), (4, 4), (1, 0), (2, 1), (3, 2), (4, 3), (4, 2)][k % 10]
+        shells, classes = bases.tight_near_pair(rng, la, lb, boost=[1.0, 30.0][k % 2])
+        orders = [list(ALL[int(rng.integers(len(ALL)))]) for _ in range(2)] + [[0, 0, 0], [1, 0, 1]]
+        cases.append({"shells": shells, "orders": orders, "origin": [float(v) for v in np.array(shells[0]["c"]) + rng.normal(size=3) * [0.0, 0.01, 1.0][k % 3]], "transform": None, "shift": False,
+                      "classes": classes + ["origin:" + ["center", "near", "off"][k % 3], "T:none", "ntriples:4"] + ["o:%d%d%d" % tuple(o) for o in orders], "cost": 60})
     cases += bases.dup_variants("C07", seed, tier, cases, 7, ok=lambda c: c.get("transform") is None)  # one shell listed twice as the same object
     cases += bases.argrep_variants("C07", seed, tier, cases, 6, ok=lambda c: "shells" in c and c.get("kind") in (None, "whole", "kernel", "perm", "real"))  # constructor arguments in other in-memory representations
     return cases
